@@ -156,10 +156,35 @@ func partialScopeEval(env Env, ent types.Value, in ast.IsScopeNode) (bool, bool)
 var errVariable = fmt.Errorf("variable")
 var errIgnore = fmt.Errorf("ignore")
 
+// containsNested reports whether a record or set value holds, at any depth, an
+// element matched by pred.
+func containsNested(v types.Value, pred func(types.Value) bool) bool {
+	switch vv := v.(type) {
+	case types.Record:
+		for e := range vv.Values() {
+			if pred(e) || containsNested(e, pred) {
+				return true
+			}
+		}
+	case types.Set:
+		for e := range vv.All() {
+			if pred(e) || containsNested(e, pred) {
+				return true
+			}
+		}
+	}
+	return false
+}
+
 // NOTE: nodes is modified in place, so be sure to send unique copy in
+//
+// projection marks the operators that only select from or build a composite value (attribute access, has,
+// record and set literals); every other operator consumes its operands as a whole, so an operand that merely
+// contains an unknown must not be evaluated yet.
 func tryPartial(env Env, nodes []ast.IsNode,
 	mkEval func(values []types.Value) Evaler,
 	mkNode func(nodes []ast.IsNode) ast.IsNode,
+	projection ...bool,
 ) (ast.IsNode, error) {
 	var values []types.Value
 	ok := true
@@ -171,11 +196,22 @@ func tryPartial(env Env, nodes []ast.IsNode,
 		} else if err != nil {
 			return nil, err
 		}
+		v, vok := n.(ast.NodeValue)
+		if vok && len(projection) == 0 {
+			if containsNested(v.Value, IsIgnore) {
+				return nil, errIgnore
+			}
+			if containsNested(v.Value, IsVariable) {
+				// keep the original expression: it is evaluated once the unknown is known
+				ok = false
+				continue
+			}
+		}
 		nodes[i] = n
 		if !ok {
 			continue
 		}
-		if v, vok := n.(ast.NodeValue); vok {
+		if vok {
 			values = append(values, v.Value)
 			continue
 		}
@@ -222,6 +258,7 @@ func partial(env Env, n ast.IsNode) (ast.IsNode, error) {
 			func(nodes []ast.IsNode) ast.IsNode {
 				return ast.NodeTypeAccess{StrOpNode: ast.StrOpNode{Arg: nodes[0], Value: v.Value}}
 			},
+			true,
 		)
 	case ast.NodeTypeHas:
 		return tryPartial(env,
@@ -232,6 +269,7 @@ func partial(env Env, n ast.IsNode) (ast.IsNode, error) {
 			func(nodes []ast.IsNode) ast.IsNode {
 				return ast.NodeTypeHas{StrOpNode: ast.StrOpNode{Arg: nodes[0], Value: v.Value}}
 			},
+			true,
 		)
 	case ast.NodeTypeGetTag:
 		return tryPartial(env,
@@ -323,6 +361,7 @@ func partial(env Env, n ast.IsNode) (ast.IsNode, error) {
 				}
 				return ast.NodeTypeRecord{Elements: el}
 			},
+			true,
 		)
 	case ast.NodeTypeSet:
 		elements := make([]ast.IsNode, len(v.Elements))
@@ -338,6 +377,7 @@ func partial(env Env, n ast.IsNode) (ast.IsNode, error) {
 			func(nodes []ast.IsNode) ast.IsNode {
 				return ast.NodeTypeSet{Elements: nodes}
 			},
+			true,
 		)
 	case ast.NodeTypeNegate:
 		return tryPartialUnary(env, v.UnaryNode, newNegateEval, func(b ast.UnaryNode) ast.IsNode { return ast.NodeTypeNegate{UnaryNode: b} })
